@@ -45,7 +45,10 @@ def _render(doc: str, fmt: str) -> Tuple[Any, str]:
     opts.verbosity = -10
     system = model.System(opts)
     b = system.systemBuilder(system)
-    b.addModuleString(f'def f(a, b=1, *args, **kw):\n    {doc!r}\n', 'm')
+    # the documented function is written with or without annotations: what the annotations add must not take anything away
+    import zlib
+    sig = ['(a, b=1, *args, **kw)', '(a: int, b: str = 1, *args, **kw) -> int', "(a, b=1, *args: int, **kw: str) -> 'Ret'", '(a, b=1, *args, **kw) -> None'][zlib.crc32(doc.encode('utf-8', 'replace')) % 4]
+    b.addModuleString(f'def f{sig}:\n    {doc!r}\n', 'm')
     b.buildModules()
     return system, flatten(epydoc2stan.format_docstring(system.allobjects['m.f']))
 
